@@ -5,6 +5,7 @@ import Lean.Data.Json
 import PintModel.Model.UC
 import PintModel.Model.Registry
 import PintModel.Model.Load
+import PintModel.Model.Quantity
 import PintModel.Gen.DefaultRegistry
 
 open Lean
@@ -136,6 +137,67 @@ def stepUC (j : Json) : Json :=
     | _ => badJ s!"uc: unknown f {f}"
   | _, _ => badJ "uc: missing f/a"
 
+
+/-! ### quantity arithmetic (C03, C05, C06) -/
+
+def jQty? (j : Json) : Option Qty := do
+  pure ⟨← fRat j "m", ← fUC j "u"⟩
+
+def jOperand? (j : Json) : Option Operand :=
+  match fRat j "num" with
+  | some x => some (.num x)
+  | none => (jQty? j).map .q
+
+def qtyJ (q : Qty) : Json := Json.mkObj [("m", ratJ q.mag), ("u", ucJ q.units)]
+
+/-- constructing a Quantity from a unit string registers every prefixed unit it mentions -/
+def registerKeys (R : Registry) (u : UC) : Registry :=
+  u.foldl (fun R p => match R.getName p.1 with | .ok (_, R') => R' | .error _ => R) R
+
+def stepQty (R0 : Registry) (j : Json) : Json :=
+  let mode : Mode := { autoconvert := (fBool j "auto").getD false }
+  match fStr j "f", field j "a" >>= jQty? with
+  | some f, some a =>
+    let b? := field j "b" >>= jOperand?
+    let R := registerKeys R0 a.units
+    let R := match b? with | some (.q b) => registerKeys R b.units | _ => R
+    let x := (fRat j "x").getD 0
+    let cmp (op : CmpOp) : Json := match b? with
+      | some b => exceptJ Json.bool (R.compare mode op a b)
+      | none => badJ "q: b"
+    match f with
+    | "add" => (match b? with | some b => exceptJ qtyJ (R.addSub mode .add a b) | none => badJ "q: b")
+    | "sub" => (match b? with | some b => exceptJ qtyJ (R.addSub mode .sub a b) | none => badJ "q: b")
+    | "mul" => (match b? with | some b => exceptJ qtyJ (R.mulDiv mode .mul a b) | none => badJ "q: b")
+    | "div" => (match b? with | some b => exceptJ qtyJ (R.mulDiv mode .div a b) | none => badJ "q: b")
+    | "floordiv" => (match b? with | some b => exceptJ qtyJ (R.floordiv mode a b) | none => badJ "q: b")
+    | "mod" => (match b? with | some b => exceptJ qtyJ (R.mod mode a b) | none => badJ "q: b")
+    | "divmod" => (match b? with
+        | some b => exceptJ (fun p => Json.arr #[qtyJ p.1, qtyJ p.2]) (R.divmod mode a b)
+        | none => badJ "q: b")
+    | "rtruediv" => exceptJ qtyJ (R.rtruediv mode x a)
+    | "rfloordiv" => exceptJ qtyJ (R.rfloordiv mode x a)
+    | "rmod" => exceptJ qtyJ (R.rmod mode x a)
+    | "rsub" => -- number - quantity = -(quantity - number)
+        exceptJ qtyJ (match R.addSub mode .sub a (.num x) with | .ok r => .ok (Registry.neg r) | .error e => .error e)
+    | "pow" => exceptJ qtyJ (R.pow mode a x)
+    | "neg" => okJ (qtyJ (Registry.neg a))
+    | "abs" => okJ (qtyJ (Registry.abs a))
+    | "eq" => (match b? with | some b => exceptJ Json.bool (R.qeq mode a b) | none => badJ "q: b")
+    | "lt" => cmp .lt
+    | "le" => cmp .le
+    | "gt" => cmp .gt
+    | "ge" => cmp .ge
+    | "hash" => exceptJ (fun p => Json.arr #[ratJ p.1, ucJ p.2]) (R.hashKey mode a)
+    | "bool" => exceptJ Json.bool (R.qbool a)
+    | "to_root" => exceptJ qtyJ (R.toRoot mode a)
+    | "to" => (match fUC j "dst" with
+        | some d => exceptJ ratJ (R.convertTo mode a d)
+        | none => badJ "q: dst")
+    | "dimensionless" => exceptJ Json.bool (R.dimensionless mode a)
+    | _ => badJ s!"q: unknown f {f}"
+  | _, _ => badJ "q: missing f/a"
+
 /-! ### registry queries (C01, C02, C08) -/
 
 def stepReg (st : DriverState) (op : String) (j : Json) : DriverState × Json :=
@@ -221,6 +283,7 @@ def step (st : DriverState) (j : Json) : DriverState × Json :=
   match fStr j "op" with
   | none => (st, badJ "no op")
   | some "uc" => (st, stepUC j)
+  | some "q" => (st, stepQty st.reg j)
   | some op => stepReg st op j
 
 end Pint
